@@ -44,6 +44,8 @@ type swaiter[T any] struct {
 }
 
 // MakeChan mirrors make(chan T, n).
+//
+//go:norace
 func MakeChan[T any](n int) *Chan[T] {
 	if n < 0 {
 		panic("makechan: size out of range")
@@ -55,6 +57,7 @@ func MakeChan[T any](n int) *Chan[T] {
 	return c
 }
 
+//go:norace
 func (c *Chan[T]) Len() int {
 	if c == nil {
 		return 0
@@ -72,6 +75,7 @@ func (c *Chan[T]) Len() int {
 	return len(c.buf)
 }
 
+//go:norace
 func (c *Chan[T]) Cap() int {
 	if c == nil {
 		return 0
@@ -83,10 +87,14 @@ func (c *Chan[T]) Cap() int {
 }
 
 // Zero returns the zero value of the element type (used by generated select code).
+//
+//go:norace
 func (c *Chan[T]) Zero() (z T) { return }
 
+//go:norace
 func (c *Chan[T]) closeAddr() *byte { return &c.slots[len(c.slots)-1] }
 
+//go:norace
 func (c *Chan[T]) popRecv() *rwaiter[T] {
 	for len(c.recvq) > 0 {
 		w := c.recvq[0]
@@ -100,6 +108,7 @@ func (c *Chan[T]) popRecv() *rwaiter[T] {
 	return nil
 }
 
+//go:norace
 func (c *Chan[T]) popSend() *swaiter[T] {
 	for len(c.sendq) > 0 {
 		w := c.sendq[0]
@@ -113,6 +122,7 @@ func (c *Chan[T]) popSend() *swaiter[T] {
 	return nil
 }
 
+//go:norace
 func (c *Chan[T]) hasRecvWaiter() bool {
 	for _, w := range c.recvq {
 		if !w.done && (w.sel == nil || !w.sel.done) {
@@ -122,6 +132,7 @@ func (c *Chan[T]) hasRecvWaiter() bool {
 	return false
 }
 
+//go:norace
 func (c *Chan[T]) hasSendWaiter() bool {
 	for _, w := range c.sendq {
 		if !w.done && (w.sel == nil || !w.sel.done) {
@@ -131,6 +142,7 @@ func (c *Chan[T]) hasSendWaiter() bool {
 	return false
 }
 
+//go:norace
 func completeSel(sel *selState, idx int) {
 	if sel != nil {
 		sel.done = true
@@ -139,6 +151,8 @@ func completeSel(sel *selState, idx int) {
 }
 
 // recvReady reports whether a receive can complete without blocking.
+//
+//go:norace
 func (c *Chan[T]) recvReady() bool {
 	if c.poll != nil {
 		c.poll()
@@ -146,11 +160,14 @@ func (c *Chan[T]) recvReady() bool {
 	return len(c.buf) > 0 || c.closed || c.hasSendWaiter()
 }
 
+//go:norace
 func (c *Chan[T]) sendReady() bool {
 	return c.closed || len(c.buf) < c.capacity || c.hasRecvWaiter()
 }
 
 // doRecv performs a receive that is known to be ready.
+//
+//go:norace
 func (c *Chan[T]) doRecv() (v T, ok bool) {
 	r := rt
 	r.event(&c.h, 0x81)
@@ -197,6 +214,8 @@ func (c *Chan[T]) doRecv() (v T, ok bool) {
 }
 
 // doSend performs a send that is known to be ready.
+//
+//go:norace
 func (c *Chan[T]) doSend(v T) {
 	r := rt
 	r.event(&c.h, 0x82)
@@ -226,6 +245,8 @@ func (c *Chan[T]) doSend(v T) {
 
 // rawSendNB is a non-blocking send used by timers from inside the scheduler: no scheduling point,
 // no happens-before edge (the sender is the runtime, not a program thread).
+//
+//go:norace
 func (c *Chan[T]) rawSendNB(v T) bool {
 	r := rt
 	c.h = mix(c.h, H{uint64(r.now), 0}, 0x83)
@@ -251,6 +272,8 @@ func (c *Chan[T]) rawSendNB(v T) bool {
 }
 
 // rawDrain discards buffered values (sync timer Stop/Reset); reports whether there was one.
+//
+//go:norace
 func (c *Chan[T]) rawDrain() bool {
 	c.h = mix(c.h, H{}, 0x84)
 	if len(c.buf) == 0 {
@@ -263,15 +286,20 @@ func (c *Chan[T]) rawDrain() bool {
 	return true
 }
 
+//go:norace
 func inactive() bool { return rt == nil || rt.aborting }
 
 // Recv mirrors `<-c`.
+//
+//go:norace
 func (c *Chan[T]) Recv() T {
 	v, _ := c.Recv2()
 	return v
 }
 
 // Recv2 mirrors `v, ok := <-c`.
+//
+//go:norace
 func (c *Chan[T]) Recv2() (v T, ok bool) {
 	if inactive() {
 		if c != nil && len(c.buf) > 0 {
@@ -304,6 +332,8 @@ func (c *Chan[T]) Recv2() (v T, ok bool) {
 }
 
 // Send mirrors `c <- v`.
+//
+//go:norace
 func (c *Chan[T]) Send(v T) {
 	if inactive() {
 		if c != nil && !c.closed && len(c.buf) < c.capacity {
@@ -333,6 +363,8 @@ func (c *Chan[T]) Send(v T) {
 }
 
 // Close mirrors close(c).
+//
+//go:norace
 func (c *Chan[T]) Close() {
 	if inactive() {
 		if c != nil {
@@ -404,6 +436,8 @@ type sendCase[T any] struct {
 }
 
 // RecvCase builds `case *dst, *ok = <-c`; dst and ok may be nil.
+//
+//go:norace
 func (c *Chan[T]) RecvCase(dst *T, ok *bool) Case {
 	if dst == nil {
 		dst = new(T)
@@ -415,17 +449,26 @@ func (c *Chan[T]) RecvCase(dst *T, ok *bool) Case {
 }
 
 // SendCase builds `case c <- v`.
+//
+//go:norace
 func (c *Chan[T]) SendCase(v T) Case { return &sendCase[T]{c: c, v: v} }
 
+//go:norace
 func (k *recvCase[T]) ready() bool { return k.c != nil && k.c.recvReady() }
+
+//go:norace
 func (k *recvCase[T]) observe() {
 	if k.c != nil {
 		rt.event(&k.c.h, 0x88)
 	}
 }
+
+//go:norace
 func (k *recvCase[T]) exec() {
 	*k.dst, *k.ok = k.c.doRecv()
 }
+
+//go:norace
 func (k *recvCase[T]) enqueue(sel *selState, idx int) {
 	if k.c == nil {
 		return
@@ -434,6 +477,8 @@ func (k *recvCase[T]) enqueue(sel *selState, idx int) {
 	raceRelease(&k.w.sync[1])
 	k.c.recvq = append(k.c.recvq, k.w)
 }
+
+//go:norace
 func (k *recvCase[T]) after(sel *selState, chosen bool) {
 	if k.w == nil {
 		return
@@ -449,7 +494,9 @@ func (k *recvCase[T]) after(sel *selState, chosen bool) {
 		q := k.c.recvq
 		for i, w := range q {
 			if w == k.w {
-				copy(q[i:], q[i+1:])
+				for j := i; j+1 < len(q); j++ { // no copy(): runtime.slicecopy is race-instrumented
+					q[j] = q[j+1]
+				}
 				q[len(q)-1] = nil
 				k.c.recvq = q[:len(q)-1]
 				break
@@ -458,13 +505,20 @@ func (k *recvCase[T]) after(sel *selState, chosen bool) {
 	}
 }
 
+//go:norace
 func (k *sendCase[T]) ready() bool { return k.c != nil && k.c.sendReady() }
+
+//go:norace
 func (k *sendCase[T]) observe() {
 	if k.c != nil {
 		rt.event(&k.c.h, 0x88)
 	}
 }
+
+//go:norace
 func (k *sendCase[T]) exec() { k.c.doSend(k.v) }
+
+//go:norace
 func (k *sendCase[T]) enqueue(sel *selState, idx int) {
 	if k.c == nil {
 		return
@@ -473,6 +527,8 @@ func (k *sendCase[T]) enqueue(sel *selState, idx int) {
 	raceRelease(&k.w.sync[0])
 	k.c.sendq = append(k.c.sendq, k.w)
 }
+
+//go:norace
 func (k *sendCase[T]) after(sel *selState, chosen bool) {
 	if k.w == nil {
 		return
@@ -487,7 +543,9 @@ func (k *sendCase[T]) after(sel *selState, chosen bool) {
 		q := k.c.sendq
 		for i, w := range q {
 			if w == k.w {
-				copy(q[i:], q[i+1:])
+				for j := i; j+1 < len(q); j++ { // no copy(): runtime.slicecopy is race-instrumented
+					q[j] = q[j+1]
+				}
 				q[len(q)-1] = nil
 				k.c.sendq = q[:len(q)-1]
 				break
@@ -498,6 +556,8 @@ func (k *sendCase[T]) after(sel *selState, chosen bool) {
 
 // Select mirrors a select statement. It returns the index of the clause that proceeded, or -1 for
 // the default clause. When several clauses are ready the choice belongs to the Chooser.
+//
+//go:norace
 func Select(hasDefault bool, cases ...Case) int {
 	if inactive() {
 		for i, c := range cases {
